@@ -304,7 +304,8 @@ impl<T: Clone> SentRotateGuard<'_, T> {
     ///
     /// [`Largest Acknowleged`]: https://www.rfc-editor.org/rfc/rfc9000.html#name-ack-frames
     pub fn update_largest(&mut self, ack_frame: &AckFrame) -> Result<(), QuicError> {
-        if ack_frame.largest() > self.inner.sent_packets.largest() {
+        // `largest()` is the packet number the next packet will get, i.e. the first one never sent
+        if ack_frame.largest() >= self.inner.sent_packets.largest() {
             return Err(QuicError::new(
                 ErrorKind::ProtocolViolation,
                 ack_frame.frame_type().into(),
